@@ -60,6 +60,9 @@ func ordEvalNum(info *types.Info, e ast.Expr, env ordEnv, alias func(ast.Expr) s
 // ordEvalBool evaluates a Boolean combination of comparisons.
 func ordEvalBool(info *types.Info, e ast.Expr, env ordEnv, alias func(ast.Expr) string) (bool, bool) {
 	e = ast.Unparen(e)
+	if _, isId := e.(*ast.Ident); isId && alias(e) == "#true" {
+		return true, true
+	}
 	switch x := e.(type) {
 	case *ast.UnaryExpr:
 		if x.Op == token.NOT {
